@@ -261,6 +261,14 @@ impl Prop for C11 {
             // mixed: first two modules in one source
             out.push(mk("perm", "sources-mixed:n=4:all".into(), ms.clone(), vec![format!("{}\n{}", pm[0], pm[1]), pm[2].clone(), pm[3].clone()]));
         }
+        // assignments that carry a comment of their own (it becomes the doc text of the item): the comment travels with
+        // its assignment, so every order gives the same bytes
+        let commented: Vec<String> = ["Flag ::= BOOLEAN", "Count ::= INTEGER", "Name ::= UTF8String", "Nothing ::= NULL", "Kind ::= ENUMERATED { a, b }"].iter().enumerate().map(|(i, a)| format!("-- about definition {i}\n{a}")).collect();
+        let cbase = module("M", "AUTOMATIC TAGS", "", &commented);
+        for p in perms_of(commented.len()) {
+            let pa: Vec<String> = p.iter().map(|i| commented[*i].clone()).collect();
+            out.push(mk("perm", "commented-assignments:n=5:all".into(), vec![cbase.clone()], vec![module("M", "AUTOMATIC TAGS", "", &pa)]));
+        }
         // two modules of the same name (a specification split over two files) whose headers differ in tagging default,
         // extensibility and imports, next to a third module: every order, in one source and as separate sources
         let s1 = module("Split-Module", "AUTOMATIC TAGS", "IMPORTS T3 FROM Three;\n", &["Alpha ::= SEQUENCE { a INTEGER, b T3 OPTIONAL }".into(), "AlphaCh ::= CHOICE { x NULL, y BOOLEAN }".into()]);
